@@ -108,6 +108,26 @@ func (f *fhub) fullDump() map[string]any {
 		}
 	}
 	d["feedEndTokens"] = tokens
+	// dataset settings: the public namespaces a dataset works with and the context it serves
+	pub, served := map[string]any{}, map[string]any{}
+	for _, n := range f.DatasetNames() {
+		if ds := f.Dsm.GetDataset(n); ds != nil {
+			l := append([]string{}, ds.PublicNamespaces...)
+			sort.Strings(l)
+			pub[n] = l
+		}
+		if code, body := f.Do("GET", "/datasets/"+n+"/entities?limit=1", "", nil); code == 200 {
+			if _, _, ctx, err := parseCollection(body); err == nil {
+				served[n] = ctx
+			} else {
+				served[n] = "ERR: " + err.Error()
+			}
+		} else {
+			served[n] = fmt.Sprintf("HTTP %d", code)
+		}
+	}
+	d["publicNamespaces"] = pub
+	d["servedContext"] = served
 	jl := f.Sched.ListJobs()
 	sort.Slice(jl, func(i, j int) bool { return jl[i].ID < jl[j].ID })
 	d["jobs"] = canonJSON(jl)
